@@ -894,6 +894,7 @@ def adapt_typehints(
             val_is_list = isinstance(val, list)
             val = prev_val + (val if val_is_list else [val])
             prev_val = prev_val + [None] * (len(val) - len(prev_val) if val_is_list else 1)
+            adapt_kwargs["append"] = False  # the items themselves are not appended to
         list_path = None
         if enable_path and type(val) is str:
             with suppress(TypeError):
